@@ -63,7 +63,9 @@ class SymStr:
     __slots__ = ("chars",)
 
     def __init__(self, chars: tuple) -> None:
-        self.chars = tuple(c if isinstance(c, str) else SInt.lift(c) if not isinstance(c, SInt) else c for c in chars)
+        self.chars = tuple(c if isinstance(c, (str, SInt)) else (sym.mk_int(c) if isinstance(c, z3.ExprRef) else SInt.lift(c)) for c in chars)
+        # a symbolic character that is in fact a numeral is a concrete character
+        self.chars = tuple(chr(c) if isinstance(c, int) and not isinstance(c, bool) else c for c in self.chars)
 
     # ---- anything native is an error
     def __hash__(self) -> int:
